@@ -14,7 +14,7 @@
 (* per failed PROPERTY conjunct (and "DRIFT" for conformance conjuncts).    *)
 (* Acceptance (POSTCONDITION): every line of the trace was consumed.        *)
 (***************************************************************************)
-EXTENDS Store, Search, KeyOps, Json, IOUtils
+EXTENDS Obs, KeyOps, Json, IOUtils
 
 Rec == ndJsonDeserialize(IOEnv.TRACE)
 
@@ -28,27 +28,12 @@ VARIABLES
 
 tvars == <<l, cur, committed, caps, ccaps, mapfull>>
 
------------------------------------------------------------------------------
-(* JSON -> values of Store.tla *)
-JSet(s) == {s[k] : k \in DOMAIN s}
-JPairs(s) == {<<s[k][1], s[k][2]>> : k \in DOMAIN s}
-JFun(s) == [x \in {s[k][1] : k \in DOMAIN s} |-> s[CHOOSE k \in DOMAIN s : s[k][1] = x][2]]
-JNode(n) == IF n.tag = "B" THEN Bucket(JSet(n.items))
-            ELSE Split([zero |-> n.zero, right |-> {n.pt}, ms |-> <<>>], n.l, n.r)
-JNodeMs(n) == IF n.tag = "B" THEN Bucket(JSet(n.items))
-              ELSE Split([zero |-> n.zero, right |-> {n.pt}, ms |-> n.ms], n.l, n.r)
-JNodes(ns) == [x \in {ns[k].id : k \in DOMAIN ns} |-> JNode(ns[CHOOSE k \in DOMAIN ns : ns[k].id = x])]
-JNodesMs(ns) == [x \in {ns[k].id : k \in DOMAIN ns} |-> JNodeMs(ns[CHOOSE k \in DOMAIN ns : ns[k].id = x])]
-JMeta(m) == IF m.has THEN [metric |-> m.metric, dim |-> m.dim, items |-> JSet(m.items), roots |-> m.roots]
-            ELSE NoMeta
-JIndex(st) ==
-  [metric |-> st.metric, dim |-> st.dim, store |-> JFun(st.store), updated |-> JSet(st.updated),
-   meta |-> JMeta(st.meta), version |-> st.version, nodes |-> JNodes(st.nodes)]
-
 \* the margin side of item `x` under a logged plane: ms is aligned with the ascending stored ids
-SideLogged(ids, plane, x) ==
-  IF plane.zero \/ ~(\E k \in DOMAIN ids : ids[k] = x) THEN "U"
-  ELSE LET k == CHOOSE k \in DOMAIN ids : ids[k] = x
+\* (pos: the position of every stored id in that ascending sequence, computed once per event)
+PosOf(ids) == [x \in {ids[k] : k \in DOMAIN ids} |-> CHOOSE k \in DOMAIN ids : ids[k] = x]
+SideLogged(pos, plane, x) ==
+  IF plane.zero \/ x \notin DOMAIN pos THEN "U"
+  ELSE LET k == pos[x]
            v == IF k \in DOMAIN plane.ms THEN plane.ms[k] ELSE 0
        IN IF v = 1 THEN "L" ELSE IF v = 2 THEN "R" ELSE IF v = 3 THEN "N" ELSE "U"
 
@@ -60,46 +45,6 @@ Report(kind, e, bad) ==
 
 IsEv(name) == l <= Len(Rec) /\ Rec[l].ev = name
 
------------------------------------------------------------------------------
-(* API-level observations (C05, C06), against the abstract index value *)
-VecDefects(vs, ix, tag) ==
-  (IF JPairs(vs) # {<<x, ix.store[x]>> : x \in Live(ix)} THEN {<<"C05", tag>>} ELSE {})
-  \cup (IF \E k \in DOMAIN vs : vs[k][3] # ix.dim THEN {<<"C05", tag \o "_length">>} ELSE {})
-IterDefects(it, ix, tag) ==
-  VecDefects(it, ix, tag)
-  \cup (IF [k \in DOMAIN it |-> it[k][1]] # SortedSeq(Live(ix)) THEN {<<"C05", tag \o "_order">>} ELSE {})
-
-ObsDefects(o, ix) ==
-  IF ~o.ok THEN {<<"C05", "observation_panicked">>}
-  ELSE
-       (IF JSet(o.contains) # Live(ix) THEN {<<"C05", "contains_item">>} ELSE {})
-  \cup VecDefects(o.vecs, ix, "item_vector")
-  \cup IterDefects(o.iter, ix, "iter")
-  \cup (IF o.iter_err THEN {<<"C05", "iter_error">>} ELSE {})
-  \cup (IF o.empty # (Live(ix) = {}) THEN {<<"C05", "is_empty">>} ELSE {})
-  \cup (IF o.need_build # NeedBuildRes(ix) THEN {<<"C06", "need_build">>} ELSE {})
-  \cup (IF o.open # OpenRes(ix, ix.metric) THEN {<<"C06", "open_" \o OpenRes(ix, ix.metric) \o "_got_" \o o.open>>} ELSE {})
-  \cup (IF o.open_other # OpenRes(ix, o.other) THEN {<<"C06", "open_other_metric">>} ELSE {})
-  \cup (IF \E k \in DOMAIN o.open_others : o.open_others[k][2] # OpenRes(ix, o.open_others[k][1])
-        THEN {<<"C06", "open_under_another_metric">>} ELSE {})
-  \cup (IF ~o.rd.has THEN {}
-        ELSE  (IF o.rd.n_items # Cardinality(Live(ix)) THEN {<<"C05", "reader_n_items">>} ELSE {})
-         \cup (IF JSet(o.rd.items) # Live(ix) THEN {<<"C05", "reader_item_ids">>} ELSE {})
-         \cup (IF o.rd.n_trees # Len(ix.meta.roots) THEN {<<"C15", "reader_n_trees">>} ELSE {})
-         \cup (IF o.rd.dim # ix.dim THEN {<<"C05", "reader_dimensions">>} ELSE {})
-         \cup (IF o.rd.empty # (Live(ix) = {}) THEN {<<"C05", "reader_is_empty">>} ELSE {})
-         \cup (IF JSet(o.rd.contains) # Live(ix) THEN {<<"C05", "reader_contains_item">>} ELSE {})
-         \cup VecDefects(o.rd.vecs, ix, "reader_item_vector")
-         \cup IterDefects(o.rd.iter, ix, "reader_iter"))
-
-\* C06 against the state the SPECIFICATION computes for a deterministic operation (not the logged one):
-\* if the operation left something behind that keeps the index open-able, this is where it shows
-StaleDefects(o, exp) ==
-  IF ~o.ok THEN {}
-  ELSE (IF o.need_build # NeedBuildRes(exp) THEN {<<"C06", "need_build_differs_from_the_specified_state">>} ELSE {})
-  \cup (IF o.open # OpenRes(exp, exp.metric) THEN {<<"C06", "open_" \o OpenRes(exp, exp.metric) \o "_expected_got_" \o o.open>>} ELSE {})
-
-\* beyond the listed properties (conformance only): Reader::stats and Reader::n_nodes agree with the forest
 \* arroy's own validator (Reader::assert_validity) against the specification's: it looks at everything
 \* ForestDefects does except the item list of the metadata ("skipped": the harness found a cycle, on
 \* which the validator would not terminate, or the caller had no decoded index at hand)
@@ -322,6 +267,7 @@ Build ==
          n == Cardinality(Live(pre))
          caps1 == IF n <= cap THEN {cap} ELSE caps[e.i] \cup {cap}
          ids == SortedSeq(Live(post))
+         pos == PosOf(ids)
          nodesMs == JNodesMs(e.st.nodes)
          faulted == e.args.cancel_at >= 0
          bad ==
@@ -335,7 +281,7 @@ Build ==
             ELSE IF e.res.c = "Ok"
             THEN BuildOkDefects(pre, post, e.args.n_trees, cap, caps1 = {cap})
                  \cup ObsDefects(e.obs, post)
-                 \cup (IF e.sides /\ post.meta # NoMeta /\ ~RoutedToSelf(nodesMs, post.meta.roots, LAMBDA p, x : SideLogged(ids, p, x))
+                 \cup (IF e.sides /\ post.meta # NoMeta /\ ~RoutedToSelf(nodesMs, post.meta.roots, LAMBDA p, x : SideLogged(pos, p, x))
                        THEN {<<"C04", "item_on_the_wrong_side_of_a_decided_plane">>} ELSE {})
                  \cup (IF faulted /\ e.polls > e.args.cancel_at + 1 THEN {<<"C10", "success_after_cancellation_was_seen_twice">>} ELSE {})
             ELSE IF faulted /\ e.res.c = "Cancelled" THEN {}
@@ -359,9 +305,10 @@ SearchEv ==
          pre == cur[e.i]
          post == JIndex(e.st)
          ids == SortedSeq(Live(post))
+         pos == PosOf(ids)
          nodesMs == JNodesMs(e.st.nodes)
          bad == CommonDefects(e) \cup Unchanged(e, pre, post, "C05")
-                \cup SearchDefects(e.q, post, nodesMs, LAMBDA p, x : SideLogged(ids, p, x))
+                \cup SearchDefects(e.q, post, nodesMs, LAMBDA p, x : SideLogged(pos, p, x))
      IN /\ Report("VIOL", e, IF Faulted(e) THEN {} ELSE bad)
         \* (the traversal is re-run by TLC for every recorded query: small histories only, like the phase conformance)
         /\ Report("DRIFT", e, IF post.meta = NoMeta \/ ~e.q.sides \/ Cardinality(DOMAIN post.nodes) > 80 THEN {}
